@@ -47,7 +47,7 @@ def relevant(pid, case, d):
     if pid == "C14":
         return op == "Reload" and k in ("purity", "repeat")
     if pid == "C13":
-        return False
+        return k == "crash"
     return False
 
 def diff_key(pid, case, d):
@@ -113,7 +113,7 @@ def report_replay(pid, results, tier, t0, level="model_checking", extra_cov=None
             raise Infra("TLC reported an error on the specification itself (%s): %s; last ops %s\n%s" %
                         (name, res["tlc_errors"][:3], res["trace_ops"], res["tlc_out_tail"][-1500:]))
         states += res["tlc"]["distinct"]; transitions += max(res["tlc"]["generated"] - 1, 0); cases += res["cases"]
-        if res["cases"] != res["tlc"]["generated"] - 1 and res["cases"] < res["tlc"]["generated"] - 1:
+        if res.get("keep_mod", 1) == 1 and res["cases"] < res["tlc"]["generated"] - 1:
             raise Infra("replayed %d of %d transitions of %s" % (res["cases"], res["tlc"]["generated"] - 1, name))
         for c in res["fails"]:
             for d in c["diffs"]:
@@ -193,7 +193,40 @@ def run_io(pid, tier, t0):
     return report_replay(pid, [("MC_IO", res)], tier, t0, assumptions=SHAPE_ASSUME + [
         "the specification's writer model is compared byte for byte with the bytes the real code writes; the model itself is shown self-consistent / round-tripping by TLC in every state"])
 
+SAN_ENV = {"ASAN_OPTIONS": "detect_leaks=0:alloc_dealloc_mismatch=1:abort_on_error=1:detect_stack_use_after_return=0",
+           "UBSAN_OPTIONS": "print_stacktrace=1:halt_on_error=1"}
+def run_memsafe(pid, tier, t0):
+    """C13: the histories come from the specification (every transition of the slices, refused calls included, objects
+    destroyed at the end of every case); the sensor is ASan+UBSan+_GLIBCXX_ASSERTIONS: a report aborts the case = 'crash'."""
+    os.environ.update(SAN_ENV)
+    ez = report_replay.ez = vlib.build("asan")
+    results = []
+    plan = [("MC_Shape.tla", "MC_Shape.cfg", shape_consts("quick"), "shape"),
+            ("MC_IO.tla", "MC_IO.cfg", io_consts("quick"), "io"),
+            ("MC_Params.tla", "MC_Params.cfg", {"MaxVals": 2, "Deep": "FALSE"}, "params"),
+            ("MC_Lookup.tla", "MC_Lookup.cfg", {"NPts": 2, "MaxFrames": 1}, "lookup")]
+    if tier != "quick":
+        plan += [("MC_Frames.tla", "MC_Frames.cfg", frames_consts("quick"), "frames"),
+                 ("MC_IO.tla", "MC_IO.cfg", io_consts("thorough"), "io2")]
+    stderr = ""
+    for mod, cfg, consts, tag in plan:
+        # quick: every 8th transition (each case still executes its whole path from Init, so nearly every transition runs under
+        # the sanitizers as a prefix of some sampled case); thorough: every transition
+        res = vlib.replay_slice(mod, cfg, consts, ez, tag=tag, timeout=6000, keep_mod=8 if tier == "quick" else 1)
+        results.append((mod[:-4], res)); stderr += res.get("stderr", "")
+    rc = report_replay(pid, results, tier, t0, level="exploration", assumptions=[
+        "sensor: clang ASan (alloc-dealloc-mismatch on) + UBSan (no recover) + _GLIBCXX_ASSERTIONS; a report aborts the replay case",
+        "histories are the transitions of the TLA+ slices; look-ups, refused calls and destruction included"],
+        extra_cov={"evaluations": sum(r["cases"] for _, r in results),
+                   "distinct_nontrivial": sum(r["tlc"]["distinct"] for _, r in results),
+                   "rule": "one evaluation = one transition of a TLA+ slice (path from Init + call) executed under ASan+UBSan in its own process, objects "
+                           "destroyed at the end; distinct = distinct specification states reached (each is the end point of at least one executed history)"})
+    if rc and stderr:
+        log("  sanitizer output (first reports):\n" + "\n".join("    " + l for l in stderr.splitlines()[:40]))
+    return rc
+
 CHECKS = {
+    "C13": run_memsafe,
     "C01": run_io, "C03": run_io, "C04": run_io, "C14": run_io,
     "C11": run_lookup,
     "C09": run_params,
